@@ -1,6 +1,5 @@
 (* GoMath.v — port of Go's pure-Go math.Sin, math.Cos, math.Acos (Cephes kernels, as compiled on
-   amd64: no fused multiply-add) to SF float64 operations.  Valid for |x| < 2^29 (no Payne-Hanek
-   reduction); larger arguments return NaN here and are excluded from bit-exact comparison.
+   amd64: no fused multiply-add) to SF float64 operations.  Arguments of 2^29 and above go through the port of trigReduce (Payne-Hanek).
    Agreement with the Go toolchain's math package is checked by the correspondence run, not proved. *)
 From Coq Require Import ZArith Bool List.
 From IVG Require Import SF.
@@ -62,6 +61,42 @@ Definition reduce (x : Z) : Z * Z :=
   let z := dsub (dsub (dsub x (dmul y k_PI4A)) (dmul y k_PI4B)) (dmul y k_PI4C) in
   (j1 mod 8, z).
 
+
+(* trigReduce (Payne-Hanek) for x >= 2^29, finite: pure 64-bit integer arithmetic on the bits of 4/pi *)
+Definition mPi4 : list Z :=
+  [0x0000000000000001; 0x45f306dc9c882a53; 0xf84eafa3ea69bb81; 0xb6c52b3278872083; 0xfca2c757bd778ac3;
+   0x6e48dc74849ba5c0; 0x0c925dd413a32439; 0xfc3bd63962534e7d; 0xd1046bea5d768909; 0xd338e04d68befc82;
+   0x7323ac7306a673e9; 0x3908bf177bf25076; 0x3ff12fffbc0b301f; 0xde5e2316b414da3e; 0xda6cfd9e4f96136e;
+   0x9e8c7ecd3cbfd45a; 0xea4f758fd7cbe2f6; 0x7a0e73ef14a525d4; 0xd7f6bf623f1aba10; 0xac06608df8f6d757].
+Definition w64 : Z := 18446744073709551616.
+Definition word (i : Z) : Z := nth (Z.to_nat i) mPi4 0.
+
+Definition trig_reduce (x : Z) : Z * Z :=
+  let ix0 := x in
+  let ex := (Z.shiftr ix0 52) mod 2048 - 1023 - 52 in
+  let ix := (ix0 mod 4503599627370496) + 4503599627370496 in
+  let digit := (ex + 61) / 64 in
+  let bs := (ex + 61) mod 64 in
+  let win (k : Z) := ((Z.shiftl (word (digit + k)) bs) mod w64) + Z.shiftr (word (digit + k + 1)) (64 - bs) in
+  let z0 := win 0 in let z1 := win 1 in let z2 := win 2 in
+  let z2hi := (z2 * ix) / w64 in
+  let z1hi := (z1 * ix) / w64 in
+  let z1lo := (z1 * ix) mod w64 in
+  let z0lo := (z0 * ix) mod w64 in
+  let lo := (z1lo + z2hi) mod w64 in
+  let c := (z1lo + z2hi) / w64 in
+  let hi := (z0lo + z1hi + c) mod w64 in
+  let j := Z.shiftr hi 61 in
+  let hi1 := ((hi * 8) mod w64) + Z.shiftr lo 61 in
+  let lz := if hi1 =? 0 then 64 else 63 - Z.log2 hi1 in
+  let e := 1023 - (lz + 1) in
+  let hi2 := ((Z.shiftl hi1 (lz + 1)) mod w64) + Z.shiftr lo (64 - (lz + 1)) in
+  let hi2 := hi2 mod w64 in
+  let hi3 := Z.shiftr hi2 12 in
+  let z := Z.lor hi3 (Z.shiftl e 52) in
+  let '(j, z) := if Z.odd j then ((j + 1) mod 8, dsub z k_one) else (j, z) in
+  (j, dmul z k_pi4).
+
 Definition sin_kernel (z : Z) : Z :=
   let zz := dmul z z in dadd z (dmul (dmul z zz) (poly k_sin zz)).
 Definition cos_kernel (z : Z) : Z :=
@@ -76,9 +111,7 @@ Definition gosin (x : Z) : Z :=
       if m =? 0 then x
       else
         let ax := dabs x in
-        if fge F64 ax k_reduce then nan_bits F64
-        else
-          let '(j, z) := reduce ax in
+          let '(j, z) := if fge F64 ax k_reduce then trig_reduce ax else reduce ax in
           let '(sign, j) := if 3 <? j then (negb s, j - 4) else (s, j) in
           let y := if (j =? 1) || (j =? 2) then cos_kernel z else sin_kernel z in
           if sign then dneg y else y
@@ -89,9 +122,7 @@ Definition gocos (x : Z) : Z :=
   | FNaN | FInf _ => nan_bits F64
   | FFin _ _ _ =>
       let ax := dabs x in
-      if fge F64 ax k_reduce then nan_bits F64
-      else
-        let '(j, z) := reduce ax in
+        let '(j, z) := if fge F64 ax k_reduce then trig_reduce ax else reduce ax in
         let '(sign, j) := if 3 <? j then (true, j - 4) else (false, j) in
         let sign := if 1 <? j then negb sign else sign in
         let y := if (j =? 1) || (j =? 2) then sin_kernel z else cos_kernel z in
